@@ -197,6 +197,16 @@ func init() {
 				}
 			}
 		}
+		if extra, ok := it.Extra["sources"].([]any); ok && im.NewLexer != nil {
+			for _, x := range extra {
+				ins = append(ins, concInput{src: []byte(fmt.Sprint(x))})
+				st.add("long_lexeme_sources", 1)
+			}
+		}
+		pristine := make([]string, len(ins))
+		for i, in := range ins {
+			pristine[i] = string(in.src)
+		}
 		// the concurrent phase comes FIRST: lazily initialised shared state (a cache filled on first use) is only
 		// written while it is still cold, and a sequential warm-up would hide those writes from the detector
 		got := make([][]string, 16)
@@ -223,6 +233,12 @@ func init() {
 		}
 		wg.Wait()
 		for i, in := range ins {
+			if in.src != nil && string(in.src) != pristine[i] {
+				st.violation("C17", fmt.Sprintf("%s race buffer %q", it.ID, pristine[i]), fmt.Sprintf("the source bytes handed to the lexers (read-only input shared by all goroutines) were modified: %q is now %q", pristine[i], in.src),
+					map[string]any{"input": pristine[i], "now": string(in.src)})
+				copy(in.src, pristine[i])
+				continue
+			}
 			alone := runOne(im, in, nil)
 			for g := 0; g < 16; g++ {
 				st.add("free_running_parses", 1)
